@@ -674,21 +674,21 @@ def rule_t10(repo):
     f = repo.func('data/nat.py', 'nat_eval')
     cfg = cfg_of(f.node)
     flow = flow_of(f.node)
-    rets = [r for r in cfg.return_nodes() if r.ast.value is not None and
-            (lambda v: isinstance(v, ast.Call) and call_attr(v) == 'dest_number')(flow.inline(r.ast.value))]
-    need(rets, 'nat_eval: the return of a numeral\'s value (dest_number) not found')
-
-    def is_value(e):
-        v = flow.inline(e)
+    def is_value(e, at):
+        # the value of a numeral: `<x>.dest_number()`, or a local that holds it where it is read (n is also the name of an operand elsewhere)
+        v = cfg.value_at(at, e) if at is not None else flow.inline(e)
         return isinstance(v, ast.Call) and call_attr(v) == 'dest_number'
-
-    def nonneg(e, pol):
-        return any(is_value(a) and isinstance(b, ast.Constant) and ((op is ast.GtE and b.value == 0) or (op is ast.Gt and b.value == -1))
-                   for op, a, b in comparison_holding(e, pol))
-
-    def integral(e, pol):
-        return pol and isinstance(e, ast.Call) and is_name(e.func, 'isinstance') and len(e.args) == 2 and is_value(e.args[0]) and is_name(e.args[1], 'int')
-    e1, e2 = cfg.establishing_edges(nonneg), cfg.establishing_edges(integral)
+    rets = [r for r in cfg.return_nodes() if r.ast.value is not None and is_value(r.ast.value, r)]
+    need(rets, 'nat_eval: the return of a numeral\'s value (dest_number) not found')
+    e1, e2 = set(), set()
+    for t in cfg.test_nodes():
+        for pol, lab in ((True, 'true'), (False, 'false')):
+            if any(is_value(a, t) and isinstance(b, ast.Constant) and ((op is ast.GtE and b.value == 0) or (op is ast.Gt and b.value == -1))
+                   for op, a, b in comparison_holding(t.ast, pol)):
+                e1.add((t.id, lab))
+        e = t.ast
+        if isinstance(e, ast.Call) and is_name(e.func, 'isinstance') and len(e.args) == 2 and is_value(e.args[0], t) and is_name(e.args[1], 'int'):
+            e2.add((t.id, 'true'))
     for i, r in enumerate(rets):
         ok1 = bool(e1) and cfg.path_avoiding(r, skip_edges=e1) is None
         ok2 = bool(e2) and cfg.path_avoiding(r, skip_edges=e2) is None
